@@ -560,7 +560,7 @@ class ComponentParser(BaseParser):
 
     def characters_description(self, data):
         if self._stack:
-            self._stack[-1].description = data
+            BaseParser.characters_description(self, data)
 
     def start_key(self, attrs):
         self._check_not_toplevel("key")
